@@ -42,7 +42,7 @@ theorem align_size_eq (up : Bool) (H : Layout) (hH : HeaderOK H) (g : Nat) (hg :
 
 theorem calcSize_some {up : Bool} {H : Layout} (hH : HeaderOK H) {hint s : Nat}
     (h : calcSize up H hint = some s) :
-    16 ∣ s ∧ sizeAlign up H ∣ s ∧ H.size + 16 ≤ s ∧ hint ≤ s + 16 ∧ s < 2^64 :=
+    16 ∣ s ∧ sizeAlign up H ∣ s ∧ H.size ≤ s ∧ hint ≤ s + 16 ∧ s < 2^64 :=
   Lemmas.calcSize_some hH h
 
 /-- whatever the base allocator grants (`g ≥ s`), the aligned size the arena uses is between the
